@@ -1,6 +1,7 @@
 """C15 — reference counts track handles exactly (mptcore/misc/refcount.c, array/buffer_alloc.c, array/array_clone.c,
 array/array_traits.c, convert/data_converter.c, meta/meta_reference_traits.c, meta/meta_geninfo.c, array/meta_buffer.c,
-event/reply_deferrable.c, core.h reference<T>, mpt++/refcount_wrap.cpp, mptplot/rawdata_create.c, mptio stream input)."""
+event/reply_deferrable.c, core.h reference<T>, mpt++/refcount_wrap.cpp, mpt++/metatype_generic.cpp, mptplot/rawdata_create.c,
+mptplot/values/iterator_file.c, mptio stream input)."""
 import itertools
 from vcheck import DiffProperty, ASAN_LEAK_ENV, build_harness, build_model, run_cases
 
@@ -51,33 +52,40 @@ class C15(DiffProperty):
     rule = ("a case = one history of handle operations over up to three objects and up to six handle slots per kind, run from an "
             "empty state, followed by a clean-up (counters given back, every slot dropped) and a LeakSanitizer pass; families: "
             "c = C object kinds (harness counted/unique metatypes and buffer with logging vtables; library buffer, geninfo, meta "
-            "buffer, config root and static top, deferrable reply context, rawdata, stream input) under new/addref/unref/clone/"
+            "buffer, config root and static top, deferrable reply context, rawdata, stream input, file iterator by descriptor / by name) under new/addref/unref/clone/"
             "assignment through conversion/reference-traits init+fini (metatype, input and array traits)/element-wise reference "
             "array copy/array clone+clear/buffer detach (also with a refused content copy)/rawdata array member/reply defer/counter field forced to 1,2,max-1,max; "
             "x = mpt++ reference<T> under set_instance/copy-assign/copy-construct/move/detach/raw addref+unref/forced counter; "
+            "g = the same operations plus clone on metatype::generic objects held by reference<metatype>; "
             "r,y = the bare counter through mpt_refcount_raise/lower and refcount::raise/lower from 0,1,2,max-1,max. quick: EVERY "
             "ordered pair (old kind, new kind) x shared/unshared x {conversion, traits init, rcopy} x target empty/held/same, "
             "every history of length <= 2 over a per-kind alphabet of 17..25 operations (plus a 6 % sample of length 3; x: "
-            "length <= 2 over 20 operations), every counter boundary value x every sharing operation, every raise/lower "
-            "sequence of length <= 4 from each of 8 start values, plus 2500 random histories of length 4..14 mixing kinds; "
-            "thorough: all histories of length <= 3, raise/lower sequences <= 8 and 60000 random histories. A case is non-trivial when it shares, "
+            "length <= 2 over 20 operations, g: length <= 2 over 22 operations), every counter boundary value x every sharing operation, every raise/lower "
+            "sequence of length <= 4 from each of 8 start values, plus 3000 random histories of length 4..14 mixing kinds; "
+            "thorough: all histories of length <= 3, raise/lower sequences <= 8 and 70000 random histories. A case is non-trivial when it shares, "
             "replaces or destroys at least one handle (every generated case does); distinct = distinct case text")
     modelled = ("mptcore/misc/refcount.c, array/buffer_alloc.c (vtable addref/unref/detach for untyped content), array/array_clone.c, "
                 "array/array_traits.c, meta/meta_reference_traits.c, mptio/input_traits.c, convert/data_converter.c "
                 "(_mpt_metatype_wrap, TypeMetaRef target), meta/meta_geninfo.c, array/meta_buffer.c, config/config_global.c "
                 "(reference part), event/reply_deferrable.c (counter, defer, deferred reply without message), "
-                "mptplot/rawdata_create.c and mptio/stream/stream_input.c (reference part), core.h reference<T>, "
-                "mpt++/refcount_wrap.cpp transcribed in coq/C15/RefcountModel.v; contents of buffers, typed buffer elements "
+                "mptplot/rawdata_create.c, mptplot/values/iterator_file.c and mptio/stream/stream_input.c (reference part), core.h reference<T>, "
+                "mpt++/refcount_wrap.cpp, mpt++/metatype_generic.cpp (addref/unref/clone) transcribed in coq/C15/RefcountModel.v; "
+                "not modelled: mptcore/array/buffer_map.c (its constructor can never succeed: page size test inverted), "
+                "mptio/output_remote.c, mptplot/history/output_local.c, mpt++/io_buffer_metatype.cpp, io_stream_input.cpp; contents of buffers, typed buffer elements "
                 "(C04/C05), reply transport (C12), malloc failure and threads are not modelled")
     trusted = ["harness/c15_refs.c and c15_cxx.cpp read every counter FIELD from the structure (library .c files are #included), "
                "observe destruction with __asan_address_is_poisoned on the object's block (freed blocks stay in ASan's quarantine) and, "
                "for their own vtables, with an addref/unref/destroy call log; LeakSanitizer (__lsan_do_recoverable_leak_check) after "
                "every case reports objects neither freed nor reachable",
                "uintptr_t is 64 bit (checked by the harness at run time; the model's modulus is 2^64)",
-               "the element-wise copy loop with undo of ORefCopy is the harness' own (the traits contract), not library code"]
-    level_text = ("proof: Coq theorems (coq/C15/Properties.v) state for the transcribed mechanism, for EVERY history of the 24 handle "
+               "the element-wise copy loop with undo of ORefCopy is the harness' own (the traits contract), not library code",
+               "c15_cxx.cpp reads the private counter member of metatype::generic by compiling meta.h with private/protected "
+               "redefined to public (no layout change with g++); while metatype::generic::unref() releases a malloc() block with "
+               "`delete this` (KNOWN-FINDING generic_delete_mismatch, reported by a probe on every run) family g runs with ASan's "
+               "alloc_dealloc_mismatch check off, otherwise under the full sanitizer options"]
+    level_text = ("proof: Coq theorems (coq/C15/Properties.v) state for the transcribed mechanism, for EVERY history of the 26 handle "
                   "operations from the empty state (induction over the operation list, no bound on length, objects or counter "
-                  "values) and all 12 object kinds: REFINEMENT of the counter-free handle-multiset specification (RefcountSpec.v: "
+                  "values) and all 15 object kinds: REFINEMENT of the counter-free handle-multiset specification (RefcountSpec.v: "
                   "state = created objects + slots, step = handle moves, alive/count/shareable DERIVED from the handles) by the "
                   "mechanism model (counter fields, destruction flags, vtable calls): every operation from every pair of related "
                   "states returns the specification's output and ends in a state related to the specification's next state "
